@@ -170,7 +170,23 @@ def check_status_plumbing(rep, repo, rule='C14.R3'):
         def is_timeout(t, items=None):
             items = _doc.doc_of(t) if items is None else items
             return any((isinstance(i_, _doc.Lit) and 'Timeout' in i_.text) or (isinstance(i_, _doc.Alt) and is_timeout(None, i_.a) and is_timeout(None, i_.b)) for i_ in items)
-        missing = [t for t in alts if not is_timeout(t) and not has_status(t)]
+        def has_status_anywhere(t):
+            # the line may sit in a list of lines that is joined later: look at every string-building subterm
+            if has_status(t):
+                return True
+            for x in walk(t):
+                if x[0] in ('fstr', 'bin', 'call') and x is not t and contains(x, lambda y: y[0] == 'const' and isinstance(y[1], str) and 'pulp_status: ' in y[1]) \
+                        and contains(x, lambda y: y == A(lp.MODEL, 'pulp_status')):
+                    try:
+                        if has_status(x):
+                            return True
+                    except Unknown:
+                        pass
+            return False
+        def is_text(t):
+            return _doc.stringy(t) or contains(t, lambda y: y[0] == 'const' and isinstance(y[1], str) and len(y[1]) > 3)
+        alts = [t for t in alts if is_text(t)]          # (a value read back from a memo of rendered texts has no structure of its own)
+        missing = [t for t in alts if not is_timeout(t) and not has_status_anywhere(t)]
         rep.check(bool(alts) and not missing, rule, gr.where, "every result text other than the Timeout notice reports 'pulp_status: ' followed by model.pulp_status",
                   got='%d of %d texts lack the status line' % (len(missing), len(alts)), want="'pulp_status: ' + self.pulp_status", construct='status line missing from the results')
     except Unknown as u:
